@@ -40,7 +40,8 @@ class PackIntMod:
         if isinstance(bits[pos],(LinComb,LinCombBool)):
             # lincomb in: boundary checking
             ret = LinComb.from_bits(bits[pos:pos+self.bitlen()])
-            ret.assert_lt(self.mod)
+            # ret < mod, checked at the width of the field (which may exceed the global bitlength)
+            (self.mod - 1 - ret).assert_positive(self.bitlen())
             return ret
         else:
             return sum([(1<<ix)*v for (ix,v) in enumerate(bits[pos:pos+self.bitlen()])])
